@@ -310,7 +310,7 @@ definitions = {
     ),
     'DotAccessor': (
         CommentsAttr(),
-        Attr('node'), Text(value='.'), Attr('identifier'),
+        Attr('node'), OptionalSpace, Text(value='.'), Attr('identifier'),
     ),
     'BracketAccessor': (
         CommentsAttr(),
